@@ -109,9 +109,8 @@ Definition p_body_rest (peek : bool) : parser fetch_att :=
   (fun s => if peek_lit [60] s
             then (part <- p_partial ;; pret (FBody peek sec (Some part))) s
             else ROk (FBody peek sec None) s).
-Definition p_fetch_att : parser fetch_att :=
-  tok <- p_many1 fetch_att_char ;;
-  match lookup fetch_toks (lower_s tok) with
+Definition fetch_dispatch (t : option ftok) : parser fetch_att :=
+  match t with
   | None => pfail
   | Some (TkSimple o) => pret (FSimple o)
   | Some TkRfc822 => pret FRfc822
@@ -120,6 +119,8 @@ Definition p_fetch_att : parser fetch_att :=
   | Some TkBody => fun s => if peek_lit [91] s then p_body_rest false s else ROk FBodyShort s
   | Some TkBodyPeek => p_body_rest true
   end.
+Definition p_fetch_att : parser fetch_att :=
+  tok <- p_many1 fetch_att_char ;; fetch_dispatch (lookup fetch_toks (lower_s tok)).
 
 (* _p_fetch_atts: "(" list, or a macro (all|full|fast, a prefix match), or one attribute *)
 Definition p_fetch_atts : parser (list fetch_att) :=
@@ -162,9 +163,31 @@ Definition search_toks : list (list Z * stok) :=
 
 Definition p_lower_astring : parser (list Z) := pmap lower_s p_astring.
 
-(* _p_search_key with `d` levels of nesting still allowed (_p_nested_search_key) *)
-Fixpoint p_search_key (d : nat) : parser skey :=
-  let nested : parser skey := match d with O => pfail | S d' => p_search_key d' end in
+(* what follows the search key atom *)
+Definition search_dispatch (nested : parser skey) (t : option stok) : parser skey :=
+  match t with
+  | None => pfail
+  | Some SkAll => pret KAll
+  | Some (SkFlag f) => pret (KKeyword (bs f))
+  | Some (SkUnflag f) => pret (KNot (KKeyword (bs f)))
+  | Some (SkHdr h) => p_sp ;;; v <- p_lower_astring ;; pret (KHeader (bs h) v)
+  | Some (SkDate w) => p_sp ;;; dt <- p_date ;; pret (KDate w dt)
+  | Some SkBody => p_sp ;;; v <- p_lower_astring ;; pret (KBody v)
+  | Some SkText => p_sp ;;; v <- p_lower_astring ;; pret (KText v)
+  | Some SkHeader => p_sp ;;; h <- p_lower_astring ;; p_sp ;;; v <- p_lower_astring ;; pret (KHeader h v)
+  | Some SkKeyword => p_sp ;;; f <- p_atom ;; pret (KKeyword f)
+  | Some SkUnkeyword => p_sp ;;; f <- p_atom ;; pret (KNot (KKeyword f))
+  | Some SkLarger => p_sp ;;; n <- p_number ;; pret (KLarger n)
+  | Some SkSmaller => p_sp ;;; n <- p_number ;; pret (KSmaller n)
+  | Some SkNew => pret (KAnd [KKeyword (bs "\Recent"); KNot (KKeyword (bs "\Seen"))])
+  | Some SkOld => pret (KNot (KKeyword (bs "\Recent")))
+  | Some SkNot => p_sp ;;; k <- nested ;; pret (KNot k)
+  | Some SkOr => p_sp ;;; a <- nested ;; p_sp ;;; b <- nested ;; pret (KOr a b)
+  | Some SkUid => p_sp ;;; l <- p_msg_set ;; pret (KUid l)
+  end.
+
+(* _p_search_key; `nested` parses a key one level further down (_p_nested_search_key) *)
+Definition search_key_body (nested : parser skey) : parser skey :=
   fun s =>
     if peek_lit [40] s then
       match p_paren_list_of nested s with
@@ -175,29 +198,13 @@ Fixpoint p_search_key (d : nat) : parser skey :=
       end
     else
       match try_many1 search_char s with
-      | Some (tok, r) =>
-          match lookup search_toks (lower_s tok) with
-          | None => RBad
-          | Some SkAll => ROk KAll r
-          | Some (SkFlag f) => ROk (KKeyword (bs f)) r
-          | Some (SkUnflag f) => ROk (KNot (KKeyword (bs f))) r
-          | Some (SkHdr h) => (p_sp ;;; v <- p_lower_astring ;; pret (KHeader (bs h) v)) r
-          | Some (SkDate w) => (p_sp ;;; dt <- p_date ;; pret (KDate w dt)) r
-          | Some SkBody => (p_sp ;;; v <- p_lower_astring ;; pret (KBody v)) r
-          | Some SkText => (p_sp ;;; v <- p_lower_astring ;; pret (KText v)) r
-          | Some SkHeader => (p_sp ;;; h <- p_lower_astring ;; p_sp ;;; v <- p_lower_astring ;; pret (KHeader h v)) r
-          | Some SkKeyword => (p_sp ;;; f <- p_atom ;; pret (KKeyword f)) r
-          | Some SkUnkeyword => (p_sp ;;; f <- p_atom ;; pret (KNot (KKeyword f))) r
-          | Some SkLarger => (p_sp ;;; n <- p_number ;; pret (KLarger n)) r
-          | Some SkSmaller => (p_sp ;;; n <- p_number ;; pret (KSmaller n)) r
-          | Some SkNew => ROk (KAnd [KKeyword (bs "\Recent"); KNot (KKeyword (bs "\Seen"))]) r
-          | Some SkOld => ROk (KNot (KKeyword (bs "\Recent"))) r
-          | Some SkNot => (p_sp ;;; k <- nested ;; pret (KNot k)) r
-          | Some SkOr => (p_sp ;;; a <- nested ;; p_sp ;;; b <- nested ;; pret (KOr a b)) r
-          | Some SkUid => (p_sp ;;; l <- p_msg_set ;; pret (KUid l)) r
-          end
+      | Some (tok, r) => search_dispatch nested (lookup search_toks (lower_s tok)) r
       | None => pmap KMsgSet p_msg_set s
       end.
+
+(* with `d` levels of nesting still allowed *)
+Fixpoint p_search_key (d : nat) : parser skey :=
+  search_key_body (match d with O => pfail | S d' => p_search_key d' end).
 
 (* ------------------------------------------------------------------ LIST *)
 Inductive seltok := SelSubscribed | SelRemote | SelRecursive | SelSpecial.
@@ -213,43 +220,15 @@ Definition sel_add (o : sel_opts) (t : seltok) : sel_opts :=
   end.
 Definition sel_none : sel_opts := mkSel false false false false.
 
-Fixpoint sel_loop (fuel : nat) (o : sel_opts) (s : list Z) : pres sel_opts :=
-  match fuel with
-  | O => RCrash CFuel
-  | S f =>
-      match p_atom s with
-      | ROk a r =>
-          match lookup sel_toks (lower_s a) with
-          | None => RBad
-          | Some t =>
-              let o' := sel_add o t in
-              match try_lit [41] r with
-              | Some r' => ROk o' r'
-              | None => match p_sp r with
-                        | ROk _ r' => sel_loop f o' r'
-                        | RBad => RBad
-                        | RCrash k => RCrash k
-                        end
-              end
-          end
-      | RBad => RBad
-      | RCrash k => RCrash k
-      end
-  end.
-(* _p_list_select_options *)
+(* one selection option *)
+Definition p_sel_item : parser seltok :=
+  a <- p_atom ;; match lookup sel_toks (lower_s a) with Some t => pret t | None => pfail end.
+(* _p_list_select_options: "(" [option *(SP option)] ")" is the loop of _p_paren_list_of; the options are
+   added to a set; RECURSIVEMATCH needs an option that filters (SUBSCRIBED or SPECIAL-USE) *)
 Definition p_select_options : parser sel_opts :=
-  p_lit [40] ;;;
-  (fun s => match try_lit [41] s with
-            | Some r => ROk sel_none r
-            | None =>
-                match sel_loop (S (List.length s)) sel_none s with
-                | ROk o r =>
-                    (* RECURSIVEMATCH needs an option that filters: SUBSCRIBED or SPECIAL-USE *)
-                    if so_recursive o && negb (so_subscribed o || so_special o) then RBad else ROk o r
-                | RBad => RBad
-                | RCrash k => RCrash k
-                end
-            end).
+  l <- p_paren_list_of p_sel_item ;;
+  let o := fold_left sel_add l sel_none in
+  if so_recursive o && negb (so_subscribed o || so_special o) then pfail else pret o.
 
 Inductive rettok := RetSubscribed | RetChildren | RetSpecial.
 Definition ret_toks : list (list Z * rettok) :=
@@ -262,58 +241,43 @@ Definition ret_add (o : ret_opts) (t : rettok) : ret_opts :=
   end.
 Definition ret_none : ret_opts := mkRet false false false false.
 
-Fixpoint ret_loop (fuel : nat) (o : ret_opts) (st : list status_att) (s : list Z) : pres (ret_opts * list status_att) :=
-  match fuel with
-  | O => RCrash CFuel
-  | S f =>
-      match p_atom s with
-      | ROk a r =>
-          let after (o' : ret_opts) (st' : list status_att) (r0 : list Z) :=
-            match try_lit [41] r0 with
-            | Some r' => ROk (o', st') r'
-            | None => match p_sp r0 with
-                      | ROk _ r' => ret_loop f o' st' r'
-                      | RBad => RBad
-                      | RCrash k => RCrash k
-                      end
-            end in
-          if beq (lower_s a) (bs "status") then
-            match (p_sp ;;; p_paren_list_of p_status_att) r with
-            | ROk [] _ => RBad
-            | ROk st' r0 => after (mkRet (ro_subscribed o) (ro_children o) true (ro_special o)) st' r0
-            | RBad => RBad
-            | RCrash k => RCrash k
-            end
-          else
-            match lookup ret_toks (lower_s a) with
-            | None => RBad
-            | Some t => after (ret_add o t) st r
-            end
-      | RBad => RBad
-      | RCrash k => RCrash k
-      end
+(* one return option; STATUS is followed by a non-empty list of status attributes *)
+Inductive retitem := RtOpt (t : rettok) | RtStatus (st : list status_att).
+Definition p_ret_item : parser retitem :=
+  a <- p_atom ;;
+  if beq (lower_s a) (bs "status")
+  then p_sp ;;; st <- p_paren_list_of p_status_att ;;
+       match st with [] => pfail | _ => pret (RtStatus st) end
+  else match lookup ret_toks (lower_s a) with Some t => pret (RtOpt t) | None => pfail end.
+Definition ret_apply (acc : ret_opts * list status_att) (i : retitem) : ret_opts * list status_att :=
+  match i with
+  | RtOpt t => (ret_add (fst acc) t, snd acc)
+  | RtStatus st => (mkRet (ro_subscribed (fst acc)) (ro_children (fst acc)) true (ro_special (fst acc)), st)
   end.
 (* _p_list_return_options *)
 Definition p_return_options : parser (ret_opts * list status_att) :=
-  p_lit [40] ;;;
-  (fun s => match try_lit [41] s with
-            | Some r => ROk (ret_none, []) r
-            | None => ret_loop (S (List.length s)) ret_none [] s
-            end).
+  l <- p_paren_list_of p_ret_item ;; pret (fold_left ret_apply l (ret_none, [])).
 
+(* the pieces of _p_list_extended *)
+Definition p_list_sel : parser sel_opts :=
+  fun s => if peek_lit [40] s then (o <- p_select_options ;; p_sp ;;; pret o) s else ROk sel_none s.
+Definition p_list_pats : parser (list Z * list (list Z)) :=
+  fun s => if peek_lit [40] s
+           then pmap (fun l => ([], l)) (p_paren_list_of p_list_mailbox_pattern) s
+           else pmap (fun p => (p, [])) p_list_mailbox s.
+Definition p_list_ret : parser (ret_opts * list status_att) :=
+  fun s => match try_lit sp s with
+           | Some r => (p_lit (bs "return") ;;; p_sp ;;; p_return_options) r
+           | None => ROk (ret_none, []) s
+           end.
 (* _p_list_extended *)
 Definition p_list (lsub : bool) : parser cmd :=
   p_sp ;;;
-  sel <- (fun s => if peek_lit [40] s then (o <- p_select_options ;; p_sp ;;; pret o) s else ROk sel_none s) ;;
+  sel <- p_list_sel ;;
   ref <- p_mailbox ;;
   p_sp ;;;
-  pp <- (fun s => if peek_lit [40] s
-                  then pmap (fun l => ([], l)) (p_paren_list_of p_list_mailbox_pattern) s
-                  else pmap (fun p => (p, [])) p_list_mailbox s) ;;
-  rr <- (fun s => match try_lit sp s with
-                  | Some r => (p_lit (bs "return") ;;; p_sp ;;; p_return_options) r
-                  | None => ROk (ret_none, []) s
-                  end) ;;
+  pp <- p_list_pats ;;
+  rr <- p_list_ret ;;
   pret (CList lsub sel ref (fst pp) (snd pp) (fst rr) (snd rr)).
 
 (* ------------------------------------------------------------------ ID *)
@@ -331,46 +295,60 @@ Definition p_id_pair : parser (list Z * option (list Z)) :=
             | None => pmap (fun v => (k, Some v)) p_string s
             end).
 (* _p_id *)
-Definition p_id : parser cmd :=
-  p_sp ;;;
-  (fun s => match try_lit (bs "nil") s with
-            | Some r => ROk (CId []) r
-            | None =>
-                if peek_lit [40] s
-                then pmap (fun l => CId (fold_left (fun d kv => dict_put d (fst kv) (snd kv)) l []))
-                          (p_paren_list_of p_id_pair) s
-                else RBad
-            end).
+Definition p_id_params : parser cmd :=
+  fun s => match try_lit (bs "nil") s with
+           | Some r => ROk (CId []) r
+           | None =>
+               if peek_lit [40] s
+               then pmap (fun l => CId (fold_left (fun d kv => dict_put d (fst kv) (snd kv)) l []))
+                         (p_paren_list_of p_id_pair) s
+               else RBad
+           end.
+Definition p_id : parser cmd := p_sp ;;; p_id_params.
 
 (* ------------------------------------------------------------------ APPEND, STORE *)
+(* the pieces of _p_append *)
+Definition p_append_flags : parser (list (list Z)) :=
+  fun s => if peek_lit [40] s then (l <- p_paren_list_of p_flag ;; p_sp ;;; pret l) s else ROk [] s.
+Definition p_append_date : parser (option date_time) :=
+  fun s => if peek_lit [34] s then (t <- p_date_time ;; p_sp ;;; pret (Some t)) s else ROk None s.
 (* _p_append *)
 Definition p_append : parser cmd :=
   p_sp ;;; mbox <- p_mailbox ;; p_sp ;;;
-  flags <- (fun s => if peek_lit [40] s then (l <- p_paren_list_of p_flag ;; p_sp ;;; pret l) s else ROk [] s) ;;
-  dt <- (fun s => if peek_lit [34] s then (t <- p_date_time ;; p_sp ;;; pret (Some t)) s else ROk None s) ;;
+  flags <- p_append_flags ;;
+  dt <- p_append_date ;;
   msg <- p_string ;;
   pret (CAppend mbox flags dt msg).
 
+(* the pieces of _p_store *)
+Definition p_store_action : parser store_action :=
+  fun s => match s with
+           | c :: r => if c =? 45 then ROk SRemove r else if c =? 43 then ROk SAdd r else ROk SReplace s
+           | [] => ROk SReplace s
+           end.
+Definition p_store_silent : parser bool :=
+  fun s => match try_lit (bs ".silent") s with Some r => ROk true r | None => ROk false s end.
+Definition p_store_flags : parser (list (list Z)) :=
+  fun s => if peek_lit [40] s then p_paren_list_of p_flag s else p_list_of p_flag s.
 (* _p_store *)
 Definition p_store (uid : bool) : parser cmd :=
   p_sp ;;; set <- p_msg_set ;; p_sp ;;;
-  act <- (fun s => match s with
-                   | c :: r => if c =? 45 then ROk SRemove r else if c =? 43 then ROk SAdd r else ROk SReplace s
-                   | [] => ROk SReplace s
-                   end) ;;
+  act <- p_store_action ;;
   p_lit (bs "flags") ;;;
-  silent <- (fun s => match try_lit (bs ".silent") s with Some r => ROk true r | None => ROk false s end) ;;
+  silent <- p_store_silent ;;
   p_sp ;;;
-  flags <- (fun s => if peek_lit [40] s then p_paren_list_of p_flag s else p_list_of p_flag s) ;;
+  flags <- p_store_flags ;;
   pret (CStore uid set act silent flags).
 
 (* _p_search *)
+Definition p_search_charset : parser (list Z) :=
+  fun s => match try_lit (bs "charset") s with
+           | Some r => (p_sp ;;; c <- p_lower_astring ;; p_sp ;;; pret c) r
+           | None => ROk (bs "us-ascii") s
+           end.
 Definition p_search (uid : bool) : parser cmd :=
   p_sp ;;;
-  charset <- (fun s => match try_lit (bs "charset") s with
-                       | Some r => (p_sp ;;; c <- p_lower_astring ;; p_sp ;;; pret c) r
-                       | None => ROk (bs "us-ascii") s
-                       end) ;;
+  charset <- p_search_charset ;;
   keys <- p_list_of (p_search_key MAX_SEARCH_KEY_DEPTH) ;;
   pret (CSearch uid charset keys).
 
